@@ -4,7 +4,8 @@
 // maps are the dependency shim.  Invariant `inv`:
 //   every peer's ACTIVE reservations <= max_reservations_per_peer, total <= max_reservations,
 //   circuits involving any one peer  <= max_circuits_per_peer,     total <= max_circuits.
-// Obligation (inductive step): inv(before) and the request is admitted  =>  inv(after).
+// Obligation (inductive step): inv(before) and the request is admitted  =>  inv(after),
+// one obligation per limit so that a report names the limit that is not kept.
 
 pub(crate) struct AdmitEnv {
     pub(crate) connections: HashMap<PeerId, HashMap<ConnectionId, Reservation>>,
@@ -112,16 +113,12 @@ fn some_endpoint() -> ConnectedPoint {
     ConnectedPoint::Listener { local_addr: Multiaddr::empty(), send_back_addr: Multiaddr::empty() }
 }
 
-/// reservation request: admitted => limits still hold afterwards
-#[kani::proof]
-#[kani::unwind(8)]
-fn reservation_admission_preserves_limits() {
-    let mut e = any_env();
-    kani::assume(inv_reservations(&e));
+fn admit_reservation(e: &mut AdmitEnv) -> Option<(PeerId, ConnectionId)> {
     let src = any_peer();
     let conn = any_conn();
     let renewed: bool = kani::any();
     // a renewal comes from a connection that already holds an active reservation
+    // (the handler reports `renewed` only while its own reservation timer runs)
     let holds = e.connections.get(&src).and_then(|cs| cs.get(&conn)).map_or(false, |s| s.is_active());
     kani::assume(!renewed || holds);
     let ep = some_endpoint();
@@ -129,33 +126,111 @@ fn reservation_admission_preserves_limits() {
     let deny = e.deny_reservation(renewed, src, &ep, now);
     kani::cover!(!deny);
     kani::cover!(deny);
-    if !deny {
-        e.accept_reservation(src, conn);
-        assert!(inv_reservations(&e));
+    if deny {
+        return None;
+    }
+    e.accept_reservation(src, conn);
+    Some((src, conn))
+}
+
+/// reservation request admitted => no peer holds more active reservations than max_reservations_per_peer
+#[kani::proof]
+#[kani::unwind(8)]
+fn reservation_admission_keeps_per_peer_limit() {
+    let mut e = any_env();
+    kani::assume(inv_reservations(&e));
+    if let Some((src, conn)) = admit_reservation(&mut e) {
         assert!(e.connections.get(&src).and_then(|cs| cs.get(&conn)).map_or(false, |s| s.is_active()));
+        let m = e.config.max_reservations_per_peer;
+        assert!(
+            active_of(&e, &peer(0)) <= m && active_of(&e, &peer(1)) <= m && active_of(&e, &peer(2)) <= m,
+            "C47: a peer holds more active reservations than max_reservations_per_peer"
+        );
     }
 }
 
-/// circuit request: admitted (and a reservation for the destination exists) => limits still hold
+/// reservation request admitted => total active reservations <= max_reservations
 #[kani::proof]
 #[kani::unwind(8)]
-fn circuit_admission_preserves_limits() {
+fn reservation_admission_keeps_total_limit() {
     let mut e = any_env();
-    kani::assume(inv_circuits(&e));
+    kani::assume(inv_reservations(&e));
+    if admit_reservation(&mut e).is_some() {
+        assert!(total_active(&e) <= e.config.max_reservations, "more active reservations than max_reservations");
+    }
+}
+
+fn admit_circuit(e: &mut AdmitEnv) -> Option<(PeerId, PeerId, usize)> {
     let src = any_peer();
     let dst = any_peer();
     let conn = any_conn();
-    let dst_conn = any_conn();
     let ep = some_endpoint();
     let now: Instant = unsafe { std::mem::zeroed() };
     let n0 = e.circuits.len();
-    let deny = e.deny_circuit(src, &ep, &Req(dst), now);
-    kani::cover!(!deny);
-    if !deny {
-        let id = e.accept_circuit(src, conn, &Req(dst), &dst_conn);
-        assert!(e.circuits.len() == n0 + 1);
-        assert!(e.circuits.circuits.contains_key(&id));
-        assert!(inv_circuits(&e));
+    let req = Req(dst);
+    if e.deny_circuit(src, &ep, &req, now) {
+        return None;
+    }
+    // accepted only if the destination holds an active reservation (same `else if let`)
+    let dst_conn = match e.find_destination(&req) {
+        Some((c, st)) => {
+            assert!(st.is_active());
+            *c
+        }
+        None => return None,
+    };
+    let id = e.accept_circuit(src, conn, &req, &dst_conn);
+    assert!(e.circuits.len() == n0 + 1);
+    assert!(e.circuits.circuits.contains_key(&id));
+    kani::cover!(true);
+    Some((src, dst, n0))
+}
+
+/// circuit admitted => circuits involving the SOURCE peer <= max_circuits_per_peer
+#[kani::proof]
+#[kani::unwind(8)]
+fn circuit_admission_keeps_source_per_peer_limit() {
+    let mut e = any_env();
+    kani::assume(inv_circuits(&e));
+    if let Some((src, _dst, _)) = admit_circuit(&mut e) {
+        assert!(
+            circuits_of(&e, src) <= e.config.max_circuits_per_peer,
+            "C47: more circuits involve the source peer than max_circuits_per_peer"
+        );
+    }
+}
+
+/// circuit admitted => circuits involving the DESTINATION peer <= max_circuits_per_peer
+#[kani::proof]
+#[kani::unwind(8)]
+fn circuit_admission_keeps_destination_per_peer_limit() {
+    let mut e = any_env();
+    kani::assume(inv_circuits(&e));
+    if let Some((_src, dst, _)) = admit_circuit(&mut e) {
+        assert!(
+            circuits_of(&e, dst) <= e.config.max_circuits_per_peer,
+            "C47: more circuits involve the destination peer than max_circuits_per_peer"
+        );
+    }
+}
+
+/// circuit admitted => total <= max_circuits, and peers that are neither source nor
+/// destination keep their count
+#[kani::proof]
+#[kani::unwind(8)]
+fn circuit_admission_keeps_total_limit() {
+    let mut e = any_env();
+    kani::assume(inv_circuits(&e));
+    let before = [circuits_of(&e, peer(0)), circuits_of(&e, peer(1)), circuits_of(&e, peer(2))];
+    if let Some((src, dst, _)) = admit_circuit(&mut e) {
+        assert!(e.circuits.len() <= e.config.max_circuits, "more circuits than max_circuits");
+        let mut b = 0u8;
+        while b < 3 {
+            if peer(b) != src && peer(b) != dst {
+                assert!(circuits_of(&e, peer(b)) == before[b as usize]);
+            }
+            b += 1;
+        }
     }
 }
 
